@@ -425,6 +425,40 @@ def extreme_truth(cells):
 
 # ------------------------------------------------------------------ pandas inputs
 
+UTC_KINDS = ["stdlib", "pytz", "zoneinfo", "dateutil", "etc"]
+
+
+def tz_object(sc):
+    """the tzinfo the index of the scenario carries; a UTC index is built with one of five kinds of UTC tzinfo"""
+    if sc["tz"] != "UTC":
+        return sc["tz"]
+    kind = sc.get("utc_kind", "stdlib")
+    if kind == "pytz":
+        import pytz
+        return pytz.UTC
+    if kind == "zoneinfo":
+        return ZoneInfo("UTC")
+    if kind == "dateutil":
+        import dateutil.tz
+        return dateutil.tz.tzutc()
+    if kind == "etc":
+        return "Etc/UTC"
+    return dt.timezone.utc
+
+
+UTC_RULE = "name"       # set by c10.main from the translator: "name" | "offset_and_name"
+
+
+def utc_by_name(sc):
+    """str(tz) == "UTC": datetime.timezone.utc, pytz.UTC, ZoneInfo("UTC")"""
+    return sc["tz"] == "UTC" and sc.get("utc_kind", "stdlib") in ("stdlib", "pytz", "zoneinfo")
+
+
+def utc_as_coded(sc):
+    """does the code as it is recognise the index of the scenario as a UTC index"""
+    return sc["tz"] == "UTC" if UTC_RULE == "offset_and_name" else utc_by_name(sc)
+
+
 def _index(secs, tz):
     import numpy as np
     import pandas as pd
@@ -440,7 +474,7 @@ def build_input(sc):
     if fam == "hourly":
         ts = hour_starts(sc)
         n = len(ts)
-        idx = _index(ts, sc["tz"])
+        idx = _index(ts, tz_object(sc))
         us = usage_cells(sc, n)
         tm = expand_runs(sc.get("temp_missing", []), n)
         cols = {}
@@ -469,14 +503,14 @@ def build_input(sc):
         # from_series: closing stamp = first day after the last period; frame: "final row is part of the period"
         stamps.append(days[n] if sc["entry"] == "from_series" else days[n - 1])
         vals.append(nan if sc.get("final_nan", True) else 1.0)
-        meter = pd.Series(vals, index=_index(stamps, sc["tz"]), name="observed")
+        meter = pd.Series(vals, index=_index(stamps, tz_object(sc)), name="observed")
     else:
         us = usage_cells(sc, n)
-        meter = pd.Series([nan if v is None else v for v in us], index=_index(days[:n], sc["tz"]), name="observed")
+        meter = pd.Series([nan if v is None else v for v in us], index=_index(days[:n], tz_object(sc)), name="observed")
     if sc["temp_source"] == "daily":
         tm = expand_runs(sc.get("temp_missing", []), n) + [False]
         k = n + 1 if closing else n
-        temp = pd.Series([nan if tm[i] else 40.0 + (i % 30) for i in range(k)], index=_index(days[:k], sc["tz"]),
+        temp = pd.Series([nan if tm[i] else 40.0 + (i % 30) for i in range(k)], index=_index(days[:k], tz_object(sc)),
                          name="temperature")
     else:
         hs = hour_starts(sc)
@@ -484,7 +518,7 @@ def build_input(sc):
         if closing:
             hs = hs + [days[n]]
             hm = hm + [False]
-        temp = pd.Series([nan if hm[i] else 50.0 + (i % 24) for i in range(len(hs))], index=_index(hs, sc["tz"]),
+        temp = pd.Series([nan if hm[i] else 50.0 + (i % 24) for i in range(len(hs))], index=_index(hs, tz_object(sc)),
                          name="temperature")
     no_meter = sc["period"] == "reporting" and not sc.get("observed_column", True)
     if sc["entry"] == "from_series":
